@@ -113,6 +113,7 @@ func (w *World) Exec(op *Op) sched.Outcome {
 	}
 	a := w.Actors[op.Actor]
 	w.pendingAtt = nil
+	w.pendingTag = nil
 	var signer = -1
 	var pol *PolicySpec
 	out := a.Proc.RunOp(op.ID, func() error {
@@ -167,6 +168,31 @@ func (w *World) Exec(op *Op) sched.Outcome {
 					w.St.DelRef(op.Ref)
 				}
 			}
+			return err
+		case "tag": // annotated tag object for an existing commit (op.Base), signed by op.CommitKey, recorded by the actor
+			target, ok := w.resolveCommit(op.Base, "")
+			if !ok || target == "" {
+				return ErrSkipped
+			}
+			var pem []byte
+			if op.CommitKey >= 0 {
+				pem = GetKey(op.CommitKey).PEM
+			}
+			name := op.Ref[strings.LastIndex(op.Ref, "/")+1:]
+			tagID, err := w.St.Pool.PutTag(target, name, fmt.Sprintf("release %s\n", name), w.St.Clock.Tick(), pem)
+			if err != nil {
+				return err
+			}
+			if _, had := w.St.GetRef(op.Ref); had {
+				return ErrSkipped // tags are not moved
+			}
+			w.St.SetRef(op.Ref, tagID)
+			signer = keyOrActor(op.EntryKey, a)
+			err = RecordEntry(a.H, op.Ref, tagID, op.EntryKey)
+			if err != nil && !a.Proc.Dead {
+				w.St.DelRef(op.Ref)
+			}
+			w.pendingTag = &tagTruth{commit: target, signer: op.CommitKey}
 			return err
 		case "commit": // `git commit`: create a commit, record nothing
 			parent, ok := w.resolveCommit(op.Base, op.Ref)
@@ -449,6 +475,9 @@ func (w *World) execApprove(a *Actor, op *Op) error {
 		return ErrSkipped
 	}
 	to := toC.Tree
+	if ap.Tag {
+		to = toC.ID
+	}
 	atts, err := attestations.LoadCurrentAttestations(a.H)
 	if err != nil {
 		return err
@@ -498,6 +527,9 @@ func (w *World) execApprove(a *Actor, op *Op) error {
 		return err // as the real client does: only "not found" starts a new authorization
 	} else {
 		stmt, err := attestations.NewReferenceAuthorizationForCommit(ap.Ref, from, to)
+		if ap.Tag {
+			stmt, err = attestations.NewReferenceAuthorizationForTag(ap.Ref, from, to)
+		}
 		if err != nil {
 			return err
 		}
